@@ -1,1 +1,1 @@
-
+import EpsieProps.C08
